@@ -154,7 +154,7 @@ class Parser:
 
     def parse_unary(self):
         k, v = self.peek()
-        if k == 'op' and v in ('!', '-'):
+        if k == 'op' and v in ('!', '-', '*'):
             self.next()
             e = self.parse_unary()
             return ('un', v, e)
